@@ -204,6 +204,11 @@ impl<K, V> EntryPtr<K, V> {
         self.ptr.is_null()
     }
 
+    #[cfg(feature = "verif-hooks")]
+    pub(crate) fn addr(&self) -> usize {
+        self.ptr as usize
+    }
+
     pub(crate) fn get(&self) -> &Entry<K, V> {
         unsafe { &*self.ptr }
     }
